@@ -59,11 +59,16 @@ class RuleMd011(RulePlugin):
             self.__leaf_token_index += 1
 
         if (
-            not self.__leaf_tokens[self.__leaf_token_index].is_code_block
-            and not self.__leaf_tokens[self.__leaf_token_index].is_html_block
-            and line
+            line
             and "(" in line
             and "[" in line
+            and not (
+                self.__leaf_tokens
+                and (
+                    self.__leaf_tokens[self.__leaf_token_index].is_code_block
+                    or self.__leaf_tokens[self.__leaf_token_index].is_html_block
+                )
+            )
         ):
             if regex_search := self.__reverse_link_syntax.search(line):
                 regex_span = regex_search.span()
